@@ -183,7 +183,7 @@ def kex (klen : Nat) (ida idb : Bytes) (dSelf rSelf : Nat) (peer peerEph : Nat Ã
     match v with
     | none => none
     | some (vx, vy) =>
-      if vx = 0 âˆ¨ vy = 0 then none else
+      if vx = 0 âˆ§ vy = 0 then none else     -- (0,0) encodes the point at infinity; (0, âˆšb) is a finite point of the curve
       let zA := za ida pa.1 pa.2
       let zB := za idb pb.1 pb.2
       -- (no "all-zero key" step: that is A5 of the encryption algorithm, not part of GM/T 0003.3)
